@@ -368,16 +368,26 @@ def run(ck):
     ck.cov["platform_inet_pton_mode"] = plat
     rng = vf.SplitMix(ck.seed * 1000003 + 8)
     nfail = 0
+    import time
+    phase = ck.cov.setdefault("phase_s", {})
+    t_last = [time.time()]
+
+    def mark(name):
+        phase[name] = round(time.time() - t_last[0], 1)
+        t_last[0] = time.time()
+    mark("build")
 
     corpus = vf.corpus_cases(PID)
     for mode in ("g", "c"):
         mine = [[l.replace(" @ ", " %s " % mode) for l in c] for c in corpus]
         nfail += ck.compare_cases(hs[mode], dcmd, mine, label="corpus-" + mode)
 
+    mark("corpus")
     # direct comparison of the inet_pton models
     for mode in ("g", "c"):
         nfail += par_compare(ck, hs[mode], dcmd, pton_cases(rng, mode, ck.scale(3000, 60000)), "pton-" + mode)
 
+    mark("pton")
     # random certificates
     n = ck.scale(40000, 1200000)
     if not ck.proof_ok:
@@ -389,12 +399,13 @@ def run(ck):
     for c in cases_g[:3]:
         ck.sample(c[0])
 
+    mark("random")
     # exhaustive pairs (range hash)
     if ck.quick() and ck.proof_ok:
         plan = [("san-dns", b"a*.", 6, 6), ("cn", b"A*.", 5, 5), ("san-dns", b"ab*.-", 4, 4)]
     else:
-        plan = [("san-dns", b"ab*.-", 5, 5), ("cn", b"ab*.-", 5, 5), ("san-dns", b"aA*.", 6, 6),
-                ("cn", b"a*.", 7, 7), ("san-dns", b"1.:", 7, 7)]
+        plan = [("san-dns", b"ab*.-", 5, 5), ("cn", b"ab*.-", 5, 5), ("san-dns", b"aA*.", 5, 6),
+                ("cn", b"a*.", 7, 7), ("san-dns", b"1.:", 6, 7)]
     for kind, alpha, lc, ln in plan:
         total = xcount(len(alpha), lc) * xcount(len(alpha), ln)
         nfail += xpairs(ck, hs[plat], dcmd, plat, kind, alpha, lc, ln, 0, total)
@@ -403,11 +414,13 @@ def run(ck):
     ck.sample("xpairs %s %s %s %d %d 0 %d" % (plat, plan[0][0], plan[0][1].hex(), plan[0][2], plan[0][3],
                                                xcount(len(plan[0][1]), plan[0][2]) * xcount(len(plan[0][1]), plan[0][3])))
 
+    mark("exhaustive")
     # end-to-end: real handshake over a socketpair (self-signed, verify_cert off, verify_name on)
     nh = ck.scale(400, 6000)
     hcases = [hs_case(rng, plat) for _ in range(nh)]
     nfail += par_compare(ck, hs[plat], dcmd, hcases, "handshake", nontrivial=nontrivial, chunk=100)
     ck.sample(hcases[0][0])
+    mark("handshake")
     ck.cov["traces_validated_against_impl"] = ck.cov["evaluations"]
     ck.cov["exhaustive"] = False
     if not ck.quick():
